@@ -5,7 +5,7 @@
 `git-upload-pack /<rid>\0host=<host>[:<port>]\0[\0<key>[=<value>]\0…]`.
 
 Every slice / index expression of the Rust on this path is a *site* that can panic; the model computes
-the bounds check of each of them explicitly (`slice?`) and returns `.panic site` when it fails.
+the bounds check of each of them explicitly (`sliceOk`) and returns `.panic site` when it fails.
 Errors are the two classes the worker distinguishes: `eof` (`io::ErrorKind::UnexpectedEof`,
 `UploadError::is_eof`) and `invalid` (every other error of the function: `InvalidInput`).
 
@@ -110,7 +110,7 @@ def readPktline (stream : Bytes) : Res (Bytes × Bytes) :=
         .ok (body, s2)
 
 /-- The code as it was before 7f81fc9 (no range check): kept only to state what the repair removed
-(`Props/C13.lean`, `readPktline_prefix_counterexample`). -/
+(`Props/C13.lean`, `pktline_prefix_counterexample`). -/
 def readPktlineUnchecked (stream : Bytes) : Res (Bytes × Bytes) :=
   match readExact HEADER_LEN stream with
   | none => .err .eof
